@@ -78,13 +78,35 @@ class C07(Property):
     thorough_budget_s = 2400
     min_nontrivial = 12
 
+
+    CHUNK = 8
+
+    def _runs_for(self, ctx, pre, items, i, job_of, **kw):
+        """runs of item i; the items of a chunk run in parallel worker processes (wfcheck.run_many)"""
+        if i not in pre:
+            chunk = items[i:i + self.CHUNK]
+            outs = wfcheck.run_many([job_of(it) for it in chunk], ctx.scratch, **kw)
+            pre.update({i + j: o for j, o in enumerate(outs)})
+        return pre.pop(i)
+
     def explore(self, ctx: Ctx) -> None:
         rng = ctx.rng
         n, k = (200, 3) if ctx.tier == "thorough" else (30, 1)
         if ctx.mode == "search":
             n, k = n * 2, k + 2
         lines, metas = [], []
+        items, pre = [], {}
         for i in range(n):
+            feats = {"exec": 4} if rng.random() < 0.35 else ({"cart": 4, "gather": 6} if rng.random() < 0.25 else ({"loop": 3} if rng.random() < 0.25 else None))
+            spec = wfgen.gen_spec(rng, size=rng.randint(2, 12), features=feats)
+            if i < len(wfgen.CORPUS):
+                spec = json.loads(json.dumps(wfgen.CORPUS[i]))
+            failing = rng.random() < 0.33
+            fspec = wfgen.choose_failure(rng, spec, loop_upstream_prob=0.0) if failing else None   # loop hangs belong to C04
+            if fspec is None:
+                failing = False
+            items.append((spec, failing, fspec or spec, [rng.randrange(1 << 30) for _ in range(k)]))
+        for i, (spec, failing, run_spec, seeds) in enumerate(items):
             if ctx.out_of_time():
                 ctx.extra["incomplete"] = True
                 break
@@ -93,18 +115,10 @@ class C07(Property):
                 # heavily loaded machine: the plan is "up to n workflows", at least 20 (quick) / 60 (thorough), corpus included
                 ctx.notes.append(f"soft time limit: stopped after {i} of {n} planned workflows")
                 break
-            feats = {"exec": 4} if rng.random() < 0.35 else ({"cart": 4, "gather": 6} if rng.random() < 0.25 else ({"loop": 3} if rng.random() < 0.25 else None))
-            spec = wfgen.gen_spec(rng, size=rng.randint(2, 12), features=feats)
             if i < len(wfgen.CORPUS):
-                spec = json.loads(json.dumps(wfgen.CORPUS[i]))
                 ctx.corpus_replayed += 1
-            failing = rng.random() < 0.33
-            fspec = wfgen.choose_failure(rng, spec, loop_upstream_prob=0.0) if failing else None   # loop hangs belong to C04
-            if fspec is None:
-                failing = False
-            run_spec = fspec or spec
-            seeds = [rng.randrange(1 << 30) for _ in range(k)]
-            runs = wfcheck.run_schedules(run_spec, seeds, ctx.scratch, timeout=30.0, confirm_hangs=not failing, stop_on_hang=True)
+            runs = self._runs_for(ctx, pre, items, i, lambda it: {"spec": it[2], "seeds": it[3], "confirm_hangs": not it[1]},
+                                  timeout=30.0, stop_on_hang=True)
             nrows = [len(r.get("db", {}).get("provenance", [])) for r in runs]
             key = ("wf", json.dumps(run_spec, sort_keys=True)) if max(nrows, default=0) >= 4 else None
             ctx.case({"spec": run_spec, "failing": failing, "provenance_rows": nrows}, key, ("fail+" if failing else "ok+") + wfcheck.spec_bucket(spec))
